@@ -60,7 +60,7 @@ CHECKS = {
         True,
         "Lean 4 model of the register reading loop on a stream (peek / rewind / dispatch / delegate) + Spec.C04.expected (one element per line of splitLines, each decided by its line alone) + differential correspondence on colliding identifier pools and corrupted contents",
         "Spec.C04.holds: after the placeholder exactly one element per input line in order; class = first declared register whose identifier occurs in the leading window, else a default register holding the line verbatim; typed data = what the register's layout reads from that line alone. Theorems Props.C04 (flatten_splitLines: nothing lost or duplicated; further refinement lemmas listed in the evidence). Every case compares the real RegisterFile.read with the model's stream loop and with the per-line specification.",
-        "Trusted: Lean kernel; model lean/Cfi/{Register,Files,Stream}.lean; identifiers are literal text (re.search = infix test).",
+        "Trusted: Lean kernel; model lean/Cfi/{Register,Files,Stream}.lean; identifiers are literal text: the infix test of the model is proved equal to the search of the literal pattern in the declarative regular-expression semantics (Props.C04.matches_is_search, classify_first_found); that Python re gives a literal pattern that meaning is observed.",
         "6/C04",
     ),
     "C05": (
